@@ -1,7 +1,7 @@
 (* C13 — Network FIFO between a pair of processes.
    Property theorems only; model in Proto/Model.v, proofs in Proto/Proofs.v. *)
 From Ergo Require Import Common.Base Proto.Model Proto.Proofs Proto.Redial Proto.RedialProofs.
-From Ergo Require Proto.RecvLock Proto.RecvLockProofs Proto.RecvFifo.
+From Ergo Require Proto.RecvLock Proto.RecvLockProofs Proto.RecvFifo Proto.Flusher Proto.FlusherProofs.
 Local Open Scope Z_scope.
 
 (* with order keeping on, the order byte derived from a process id is never 0 (0 = round robin) *)
@@ -154,3 +154,26 @@ Theorem C13_receive_queue_merges_links : forall links sched,
   RL.quiescent c = true -> Merge links (RL.pushed (RL.sh c)) /\ RL.delivered (RL.sh c) = RL.pushed (RL.sh c).
 Proof. exact Proto.RecvFifo.recv_queue_merges_links. Qed.
 Print Assumptions C13_receive_queue_merges_links.
+
+(* ---- the write side of a link (lib/flusher.go): the premise "TCP delivers the bytes of a link in the order of
+   the Write calls" starts at the writer.  For every sequence of Write calls and timer firings, with bufio
+   splitting the data in any way: what reached the socket followed by what is buffered is what was written, in
+   order; buffered bytes always have an armed timer; after the timer nothing is left.  A writer that hands
+   large chunks to the socket without flushing first reorders (seeded change): refuted. *)
+Module FL := Proto.Flusher.
+Theorem C13_flusher_keeps_order : forall cap ops,
+  let s := FL.frun cap ops in
+  FL.f_out s ++ FL.f_buf s = FL.written ops /\ (FL.f_pending s = false -> FL.f_buf s = []).
+Proof. exact Proto.FlusherProofs.flusher_keeps_order. Qed.
+Print Assumptions C13_flusher_keeps_order.
+
+Theorem C13_flusher_complete_after_tick : forall cap ops,
+  FL.f_out (FL.frun cap (ops ++ [FL.FTick])) = FL.written ops.
+Proof. exact Proto.FlusherProofs.flusher_complete_after_tick. Qed.
+Print Assumptions C13_flusher_complete_after_tick.
+
+Theorem C13_flusher_bypass_refuted :
+  exists ops, FL.f_out (fold_left (Proto.FlusherProofs.fstep_bypass 16 4) ops (FL.mk_f [] [] false)) = [9; 9; 9; 9; 9; 1; 2]%Z /\
+              FL.written ops = [1; 2; 9; 9; 9; 9; 9]%Z.
+Proof. exact Proto.FlusherProofs.bypass_reorders_refuted. Qed.
+Print Assumptions C13_flusher_bypass_refuted.
